@@ -1,6 +1,8 @@
 ----------------------------- MODULE MC_VRFSeed -----------------------------
 (* Exhaustive configurations of VRFSeed.tla and the arrival-sequence generator of C33. *)
 EXTENDS VRFSeed, Json
+(* exhaustive runs identify histories with the same delivery counts (the order is in stored / valid / seed) *)
+MCView == <<t, n, F, h, stored, seed, valid, [j \in 1..MaxN |-> Count(j)]>>
 (* histories are prefix closed: only the maximal ones are replayed (each arrival is one event) *)
 Maximal == Len(hist) = MaxArrivals \/ \A j \in Parties : Count(j) >= MaxPerParty
 (* the generator fixes the DKG polynomial and the message: only the structure is replayed *)
